@@ -26,17 +26,17 @@ pub proof fn lemma_cf_deps(x1: T, y1: T, x2: T, y2: T, x: T)
 /// C01 as a theorem over the contracts of Linear::interp_into / calc_frac / get_lower_index:
 /// the value written to lane j is the straight line through the two bracketing data points;
 /// hence knots are reproduced and the result stays between the two bracketing values.
-pub proof fn thm_C01<S>(it: &Interp1D<S>, i: int, x: T, j: int)
-    requires it.wf(), is_fin(x), in_range(it.x@, x), bracket(it.x@, x, i), 0 <= j < it.lanes(),
+pub proof fn thm_C01<S>(it: &Interp1D<S>, i: int, x: T, j: int, r: T)
+    requires it.wf(), is_fin(x), in_closed_range(it.x@, x), bracket(it.x@, x, i), 0 <= j < it.lanes(),
              is_fin(it.data.rows@[i][j]), is_fin(it.data.rows@[i + 1][j]),
+             linear_ok(r, it, i, x, j),
     ensures ({
-        let v = linear_at(it, i, x, j);
         let (x1, y1, x2, y2) = (it.x@[i]@, it.data.rows@[i][j]@, it.x@[i + 1]@, it.data.rows@[i + 1][j]@);
         &&& x1 <= x@ <= x2 && x1 < x2
-        &&& is_fin(v) && v@ == line(x1, y1, x2, y2, x@)
-        &&& x@ == x1 ==> v@ == y1
-        &&& x@ == x2 ==> v@ == y2
-        &&& rmin(y1, y2) <= v@ <= rmax(y1, y2)
+        &&& is_fin(r) && r@ == line(x1, y1, x2, y2, x@)
+        &&& x@ == x1 ==> r@ == y1
+        &&& x@ == x2 ==> r@ == y2
+        &&& rmin(y1, y2) <= r@ <= rmax(y1, y2)
     })
 {
     let (x1, y1, x2, y2) = (it.x@[i]@, it.data.rows@[i][j]@, it.x@[i + 1]@, it.data.rows@[i + 1][j]@);
@@ -46,8 +46,6 @@ pub proof fn thm_C01<S>(it: &Interp1D<S>, i: int, x: T, j: int)
         if t_ge(x, it.x@[it.x@.len() - 1]) { assert(i == it.x@.len() - 2); }
         if t_le(x, it.x@[0]) { assert(i == 0); }
     }
-    lemma_cf_is_line(it.x@[i], it.data.rows@[i][j], it.x@[i + 1], it.data.rows@[i + 1][j], x);
-    lemma_cf_finite(it.x@[i], it.data.rows@[i][j], it.x@[i + 1], it.data.rows@[i + 1][j], x);
     L_line_at_x1(x1, y1, x2, y2);
     L_line_at_x2(x1, y1, x2, y2);
     if y1 <= y2 {
@@ -57,4 +55,20 @@ pub proof fn thm_C01<S>(it: &Interp1D<S>, i: int, x: T, j: int)
         L_line_lower_bound_falling(x1, y1, x2, y2, x@);
         L_line_upper_bound_falling(x1, y1, x2, y2, x@);
     }
+}
+
+/// labelling of the inputs for the dependency claims (C08 / C20): every input cell carries exactly its own name
+pub open spec fn labelled1<S>(it: &Interp1D<S>, x: T) -> bool {
+    &&& x.deps@ =~= set![Cell::Query]
+    &&& forall|i: int| 0 <= i < it.x@.len() ==> (#[trigger] it.x@[i]).deps@ =~= set![Cell::Axis(i)]
+    &&& forall|i: int, j: int| 0 <= i < it.data.rows@.len() && 0 <= j < it.data.rows@[i].len() ==> (#[trigger] it.data.rows@[i][j]).deps@ =~= set![Cell::Data(i, 0, j)]
+}
+/// C20 / C08 (Linear): lane j of the result depends on the query, the two bracketing knots and
+/// the two bracketing data values OF LANE j — nothing else
+pub proof fn thm_C20_linear<S>(it: &Interp1D<S>, i: int, x: T, j: int, r: T)
+    requires it.wf(), labelled1(it, x), 0 <= i <= it.x@.len() - 2, 0 <= j < it.lanes(), linear_ok(r, it, i, x, j),
+    ensures r.deps@.subset_of(set![Cell::Query, Cell::Axis(i), Cell::Axis(i + 1), Cell::Data(i, 0, j), Cell::Data(i + 1, 0, j)])
+{
+    assert(it.data.rows@[i].len() == it.data.rows@[0].len());
+    assert(it.data.rows@[i + 1].len() == it.data.rows@[0].len());
 }
